@@ -789,4 +789,6 @@ def replay(path: str) -> int:
 
 
 def selftest(seed: int) -> int:
-    return 0
+    vlib.setup_repo_imports()
+    from checks import ext_calltrace
+    return ext_calltrace.selftest(seed)
